@@ -134,10 +134,13 @@ Section WithCmp.
     end.
 End WithCmp.
 
-(* comparator family used by the drivers: k = 0 no comparator, otherwise
-   "equal modulo k" *)
+(* comparator family used by the drivers: k = 0 no comparator; 0 < k < 100 "equal modulo k" (reflexive);
+   k >= 100 a key-style, NON-reflexive comparator "key + 1 equals the element modulo k - 100", under which a stored
+   pointer does not compare equal to itself, so that the "or the pointer" half of the match is exercised alone *)
 Definition ceq_of (k : N) : option (N -> N -> bool) :=
-  if N.eqb k 0 then None else Some (fun a b => N.eqb (a mod k) (b mod k)).
+  if N.eqb k 0 then None
+  else if N.ltb k 100 then Some (fun a b => N.eqb (a mod k) (b mod k))
+  else Some (fun a b => N.eqb ((a + 1) mod (k - 100)) (b mod (k - 100))).
 
 Definition l_run (k : N) (dtor : bool) (ops : list lop) : list (list ev) :=
   snd (run (l_step (ceq_of k)) (l_init dtor) ops).
